@@ -418,7 +418,7 @@ def wf_packets5(ctx, rng):
             add(q_publish5(0, 1, 0, b"a/b", 5, bytes((i * 7 + rem) & 0xff for i in range(pl)), ps), "len-boundary")
     for pl_ in (127 - 1, 128 - 1, 16383 - 1, 16384 - 1, 16384):     # property length across its own varint boundaries
         add(q_publish5(0, 0, 0, b"t", 0, b"x", [(8, b"r" * (pl_ - 3))]), "len-boundary", "props")
-    for rem in ([2097151, 2097152] if not th else [2097150, 2097151, 2097152, 2097153]):
+    for rem in ([2097152] if not th else [2097150, 2097151, 2097152, 2097153]):
         add(q_publish5(0, 1, 1, b"t", 65535, bytes([rem & 0xff]) * (rem - 2 - 1 - 2 - 1), None), "len-boundary", "huge")
     for n in (65535, 65536):
         add(q_publish5(0, 0, 0, b"a" * n, 0, b"z", None), "str-boundary")
@@ -946,7 +946,6 @@ def run_c05(ctx, mexe, iexe, p_ok):
     ctx.cov["stream_chunkings"] = len(slines)
     ctx.cov["chunkings_cutting_inside_a_frame"] = inside
     ctx.cov["answer_histogram"] = dict(sorted(hist.items(), key=lambda kv: -kv[1])[:60])
-    ctx.cov["correspondence_only"] = []
     ctx.cov["samples"] = samples + ["%s -> impl %s / model %s" % (short(slines[i]), short(simpl[i]), short(smodel[i])) for i in (1, len(slines) // 2, len(slines) - 1)]
     report(ctx, "C05", fails, diffs, p_ok, total)
 
@@ -960,13 +959,23 @@ def run(ctx):
         "the harness mapping between each crate's packet structs and the canonical packet (harness/src/bin/codec.rs: to_client/from_client/to_broker/from_broker, error kind = Debug constructor name) is trusted; rumqttd protocol::Publish dup/qos/pkid are crate-private and are set/read through the public Publish::deserialize/serialize",
         "encoders are modelled for an EMPTY output buffer (Connect::write patches the flags byte at an index counted from the buffer start); both crates only ever call them that way in the harness",
         "tokio_util::codec::Framed and rumqttd Network::read/readv are modelled by the loop `feed` (append chunk, decode until NeedMore/error); that the real loops behave like it is what the STREAM ops check",
-        "MQTT 5 codecs are outside this component (v4 only); the canonical v4 packet carries no MQTT 5 properties, so the harness always passes properties = None to rumqttd V4::write (its Some(properties) arms — finding F2, fixed in /repo b976ada — belong to C20)",
+        "the canonical v4 packet carries no MQTT 5 properties, so the harness always passes properties = None to rumqttd V4::write (its Some(properties) arms — finding F2, fixed in /repo b976ada — belong to C20)",
+        "MQTT 5 reason codes are identified with their wire codes through tables in the harness (harness/src/bin/codec/v5.rs: PUBACK/.../DISCONNECT/CONNACK tables) and the property id -> value kind table is repeated in the harness, the OCaml driver and the generator",
     ]
-    ctx.cov["scope"] = ("MQTT 3.1.1 (v4) codecs of both crates: every pinned theorem is proved for all 14 packet types and both flavours "
-                        "(nothing is correspondence-only). The MQTT 5 half of the property (rumqttc::v5::mqttbytes, rumqttd::protocol::v5) is NOT covered by this "
-                        "component yet: no model, no theorem, no correspondence run.")
-    ctx.cov["not_covered"] = ["MQTT 5 encoders/decoders (all four v5 entry points)", "encoders writing into a non-empty buffer",
-                              "max sizes above 2^28 and payloads above 2 MiB are sampled, not enumerated"]
+    ctx.cov["scope"] = ("MQTT 3.1.1 and MQTT 5 codecs of both crates (rumqttc mqttbytes::v4 / v5::mqttbytes::v5, rumqttd protocol::v4 / v5): every "
+                        "pinned theorem is proved for all 14 packet types that both crates implement and for both flavours, in both protocol versions, "
+                        "with every MQTT 5 property present or absent (generic TLV lemma c04_read_props_write_v5); nothing is correspondence-only. The MQTT 5 theorems "
+                        "are about the decoders as repaired by the /repo commits 4a43eae, 3dc6acc, 6436c3f; the behaviour before them is pinned as "
+                        "c04_rt_v5_subscription_ids_refuted, c04_rt_v5_disconnect_refuted, c05_read_frame_v5_refuted (model variant `unfixed`).")
+    ctx.cov["correspondence_only"] = []
+    ctx.cov["not_covered"] = [
+        "MQTT 5 AUTH: rumqttd has no AUTH packet; rumqttc::v5 Packet::read has no arm for type 15 (InvalidPacketType — covered as that) and an Auth value cannot be "
+        "built through the public API (AuthReasonCode is not nameable outside the crate), so Auth::write/len/size are unreachable dead code and are not modelled "
+        "(by reading: AuthProperties::len omits the 2-byte string prefixes, i.e. size() != bytes written, and Auth::read's cursor arithmetic is wrong)",
+        "rumqttd Packet::Connect(.., will = None, will_properties = Some(..), ..): not expressible in the canonical packet (will properties live inside the will)",
+        "encoders writing into a non-empty buffer",
+        "max sizes above 2^28 and payloads above 2 MiB are sampled, not enumerated",
+    ]
     mexe, iexe = drivers(ctx)
     if not mexe:
         return
